@@ -219,6 +219,53 @@ func c37gen(r *rand.Rand, tier string, emit func(string)) {
 			emit("list")
 		}
 	}
+	// (1b) random tables of longer names over a tiny alphabet (names up to length 5, so that a typed
+	//      prefix can be LONGER than a registered name that sorts after the matching run, and deletions
+	//      hit every position of a longer per-letter vector); every prefix of every name, each also
+	//      extended by one byte, is looked up before and after deleting a random entry.
+	nt := 300
+	if tier == "thorough" {
+		nt = 6000
+	}
+	randName := func() string {
+		n := 1 + r.Intn(5)
+		b := make([]byte, n)
+		for i := range b {
+			b[i] = "aab"[r.Intn(3)]
+			if r.Intn(12) == 0 {
+				b[i] = 'c'
+			}
+		}
+		return string(b)
+	}
+	for t := 0; t < nt; t++ {
+		emit("reset")
+		k := 2 + r.Intn(7)
+		var tbl []string
+		for i := 0; i < k; i++ {
+			n := randName()
+			tbl = append(tbl, n)
+			emit("add " + n)
+		}
+		probe := func() {
+			seen := map[string]bool{}
+			for _, n := range tbl {
+				for l := 1; l <= len(n); l++ {
+					for _, ext := range []string{"", "a", "b"} {
+						q := n[:l] + ext
+						if !seen[q] {
+							seen[q] = true
+							emit("lookup " + q)
+						}
+					}
+				}
+			}
+		}
+		probe()
+		emit("del " + tbl[r.Intn(len(tbl))])
+		probe()
+		emit("list")
+	}
 	// (2) random add/del histories over longer names sharing prefixes, several first letters
 	nh, nops := 150, 60
 	if tier == "thorough" {
@@ -256,7 +303,7 @@ func c37gen(r *rand.Rand, tier string, emit func(string)) {
 func init() {
 	register(&Prop{
 		ID:   "C37",
-		Rule: "bounded-exhaustive: every table over names of length<=2 (quick) / <=3 (thorough) on alphabet {a,b}, built in a random insertion order, x every prefix one byte longer; plus random Add/Del/Lookup/List/Cmd histories over 28 names sharing prefixes. Non-trivial: add/del ops, lookups in tables with >=2 names, ':'-prefixed Cmd lines; distinct by op text.",
+		Rule: "bounded-exhaustive: every table over names of length<=2 (quick) / <=3 (thorough) on alphabet {a,b}, built in a random insertion order, x every prefix one byte longer; plus random tables of 2-8 names of length<=5 over {a,b,c} probed with every prefix of every name (also extended by one byte) before and after a deletion; plus random Add/Del/Lookup/List/Cmd histories over 28 names sharing prefixes. Non-trivial: add/del ops, lookups in tables with >=2 names, ':'-prefixed Cmd lines; distinct by op text.",
 		Gen:  c37gen,
 		Exec: c37exec,
 		Exhaustive: func(tier string) bool { return true },
